@@ -6,6 +6,7 @@
 #include "nmtools/utility/shape.hpp"
 #include "nmtools/utility/at.hpp"
 #include "nmtools/array/index/compute_indices.hpp"
+#include "nmtools/array/index/normalize_axis.hpp"
 #include "nmtools/array/ndarray/hybrid.hpp"
 
 namespace nmtools::index
@@ -14,8 +15,10 @@ namespace nmtools::index
     struct shape_take_t {};
 
     template <typename shape_t, typename indices_t, typename axis_t>
-    constexpr auto shape_take(const shape_t& shape, const indices_t& indices, [[maybe_unused]] axis_t axis)
+    constexpr auto shape_take(const shape_t& shape, const indices_t& indices, [[maybe_unused]] axis_t axis_)
     {
+        // a negative axis counts from the last axis (numpy); None is passed through
+        [[maybe_unused]] const auto axis = wrap_axis(axis_, len(shape));
         using return_t = meta::resolve_optype_t<shape_take_t,shape_t,indices_t,axis_t>;
 
         auto res = return_t {};
@@ -53,8 +56,10 @@ namespace nmtools::index
     } // shape_take
 
     template <typename index_t, typename shape_t, typename indices_t, typename axis_t>
-    constexpr auto take(const index_t& index, const shape_t& shape, const indices_t& indices, [[maybe_unused]] axis_t axis)
+    constexpr auto take(const index_t& index, const shape_t& shape, const indices_t& indices, [[maybe_unused]] axis_t axis_)
     {
+        // a negative axis counts from the last axis (numpy); None is passed through
+        [[maybe_unused]] const auto axis = wrap_axis(axis_, len(shape));
         using return_t = meta::resolve_optype_t<take_t,index_t,shape_t,indices_t,axis_t>;
 
         auto res = return_t {};
